@@ -23,12 +23,12 @@ def iter_nodes(schema, depth=0):
                 yield from iter_nodes(p.get("type"), depth + 1)
             if p.get("elements") is not Nil:
                 for e in p.get("elements"):
-                    if e is not ...:
+                    if e is not ... and hasattr(e, "props"):
                         yield from iter_nodes(e, depth + 1)
         elif kind == "DictSchema":
             if p.get("keys") is not Nil:
                 for kk, (vs, opt) in p.get("keys").items():
-                    if kk is not ...:
+                    if kk is not ... and hasattr(vs, "props"):
                         yield from iter_nodes(vs, depth + 1)
         elif kind == "AnySchema":
             if p.get("types") is not Nil:
@@ -56,6 +56,7 @@ class Prop(BaseProp):
     def gen_case(self, labels, cfg):
         r = _real_random.Random(derive(*labels, "case"))
         k = S.Knobs(r)
+        k.p_placeholder = r.choice((0.0, 0.3, 0.6))
         spec, w = S.gen(r, k)
         route = r.choice(("fake", "fake", "invert", "generator"))
         case = {"spec": spec, "witness": enc(w), "route": route,
@@ -133,6 +134,7 @@ class Prop(BaseProp):
             self.probes["sat_by_witness"] += 1
         has_clock = S.has_unfixed_clock(case["spec"])
         shape = S.shape(case["spec"])
+        hs_sensitive = S.hash_seed_sensitive(case["spec"])
         failures = []
         keys = set()
         digests = []
@@ -153,7 +155,7 @@ class Prop(BaseProp):
             sites = tuple(sorted(set((e[5], e[3]) for e in log)))
             if log:
                 keys.add(derive(shape, sites) & 0xFFFFFFFFFFFF)
-            digests.append(fast_digest([log, oc, canon(out.get("value"))]))
+            digests.append(fast_digest([log, oc, None if hs_sensitive else canon(out.get("value"))]))
             if oc == "ok":
                 any_ok[0] = True
                 if not sample:
@@ -289,5 +291,8 @@ def repr_short(sch):
         from d42 import represent
         r = represent(sch)
     except Exception:
-        r = repr(sch)
+        try:
+            r = repr(sch)
+        except Exception as e:      # a malformed schema (e.g. `...` where a schema belongs) cannot be printed
+            r = "<unprintable %s: %s>" % (type(sch).__name__, type(e).__name__)
     return r if len(r) < 400 else r[:400] + "..."
